@@ -70,6 +70,9 @@ pub const EDITS: &[EditClass] = &[
     ec("field_case", EditKind::Config, "default_field_case snake_case <-> camelCase (config file only)"),
     ec("comment", EditKind::Control, "add/remove a line comment in lib.rs"),
     ec("helper_fn", EditKind::Control, "add/remove a private helper fn without attribute in lib.rs"),
+    ec("private_field_type", EditKind::Source, "non-pub field User.token: u64 <-> Option<String>"),
+    ec("first_emit_payload", EditKind::Source, "first of two emissions of \"status\": payload \"starting\" (String) <-> true (bool); the second emission (in report) stays 100"),
+    ec("swap_emits", EditKind::Source, "swap the order of the two emit statements in save_user (listener order in events.ts)"),
     ec("delete_types", EditKind::Delete, "remove types.ts from the output directory"),
     ec("delete_commands", EditKind::Delete, "remove commands.ts from the output directory"),
     ec("delete_events", EditKind::Delete, "remove events.ts from the output directory"),
@@ -97,6 +100,9 @@ pub const E_PARAM_CASE: usize = 17;
 pub const E_FIELD_CASE: usize = 18;
 pub const E_COMMENT: usize = 19;
 pub const E_HELPER_FN: usize = 20;
+pub const E_PRIVATE_FIELD_TYPE: usize = 21;
+pub const E_FIRST_EMIT_PAYLOAD: usize = 22;
+pub const E_SWAP_EMITS: usize = 23;
 
 pub fn edit_index(name: &str) -> Option<usize> {
     EDITS.iter().position(|e| e.name == name)
@@ -171,16 +177,21 @@ pub fn render_sources(m: &Model) -> Vec<(String, String)> {
         if m.has(E_RETURN_TYPE) { "Option<User>" } else { "User" },
     ));
     lib.push_str("#[tauri::command]\npub async fn save_user(app: AppHandle, user: User, notify: Option<bool>) -> Result<(), String> {\n");
-    if m.has(E_PAYLOAD_TYPE) {
-        lib.push_str("    app.emit(\"user-saved\", Progress { done: 1, total: 1 }).unwrap();\n");
+    let saved = if m.has(E_PAYLOAD_TYPE) { "    app.emit(\"user-saved\", Progress { done: 1, total: 1 }).unwrap();\n" } else { "    app.emit(\"user-saved\", &user).unwrap();\n" };
+    let status = if m.has(E_FIRST_EMIT_PAYLOAD) { "    app.emit(\"status\", true).unwrap();\n" } else { "    app.emit(\"status\", \"starting\").unwrap();\n" };
+    if m.has(E_SWAP_EMITS) {
+        lib.push_str(status);
+        lib.push_str(saved);
     } else {
-        lib.push_str("    app.emit(\"user-saved\", &user).unwrap();\n");
+        lib.push_str(saved);
+        lib.push_str(status);
     }
     if m.has(E_ADD_EVENT) {
         lib.push_str("    app.emit(\"audit-logged\", \"saved\").unwrap();\n");
     }
     lib.push_str("    Ok(())\n}\n\n");
     lib.push_str(&format!("#[tauri::command]\npub fn watch(on_progress: Channel<Progress>, {}kind: Kind) {{}}\n", if m.has(E_CHANNEL) { "on_log: Channel<String>, " } else { "" }));
+    lib.push_str("\n#[tauri::command]\npub fn report(app: AppHandle) {\n    app.emit(\"status\", 100).unwrap();\n}\n");
     if m.has(E_ADD_COMMAND) {
         lib.push_str("\n#[tauri::command]\npub fn ping(count: u32) -> u32 {\n    count\n}\n");
     }
@@ -206,6 +217,7 @@ pub fn render_sources(m: &Model) -> Vec<(String, String)> {
         md.push_str("    #[serde(skip)]\n");
     }
     md.push_str("    pub note: Option<String>,\n    pub created: Timestamp,\n");
+    md.push_str(&format!("    token: {},\n", if m.has(E_PRIVATE_FIELD_TYPE) { "Option<String>" } else { "u64" }));
     if m.has(E_ADD_FIELD) {
         md.push_str("    pub email: String,\n");
     }
@@ -409,7 +421,17 @@ fn compare(reference: &Files, actual: &Files) -> Vec<String> {
     if bytes_equal_modulo_timestamp(reference, actual) {
         return vec![];
     }
-    sandbox::compare_generated(reference, actual)
+    let by_declaration = sandbox::compare_generated(reference, actual);
+    if !by_declaration.is_empty() {
+        return by_declaration;
+    }
+    // same declarations, different bytes: since the emission order is deterministic, a different
+    // order is stale content too
+    reference
+        .iter()
+        .filter(|(name, text)| name.ends_with(".ts") && actual.get(*name).map_or(false, |a| tool::strip_timestamp(a) != tool::strip_timestamp(text)))
+        .map(|(name, _)| format!("{}: same declarations, but in an order (or layout) a fresh generation does not produce", name))
+        .collect()
 }
 
 /// do the declarations two forced runs produce differ? (used to classify an edit as output-affecting)
